@@ -1,9 +1,11 @@
 import CollectionsC.Proofs.PTreeWF
 import CollectionsC.Proofs.PTreeInsertLoop
 import CollectionsC.Proofs.PTreeAdd
+import CollectionsC.Proofs.PTreeInsertFuel
 import CollectionsC.Proofs.PTreeRemove
 import CollectionsC.Proofs.PTreeWfB
 import CollectionsC.Proofs.PTreeDeleteStepR
+import CollectionsC.Proofs.PTreeRemoveWF
 /-! # C03 / C17 — the pointer level of `cc_treetable.c`
 
 `Model/PTree.lean` is the tree as the C code sees it: a heap of nodes `{ key, value, color, left, right,
@@ -34,7 +36,8 @@ the ids — the inductive tree of `Model/TreeTable.lean`.  `WF st := ∃ t, Repr
   iteration: `fixup_keeps_invariant`), the six pointer-level case steps = the inductive fix-up at the
   grandparent (`fixup_case*`), and the loop with the final `root->color = BLACK` **restoring `RB`**
   (`rebalance_after_insert_rb`; this is what distinguishes the real loop from a no-op and shows that the
-  fuel `size + 2` is enough: a loop that stopped early would leave the violation).
+  fuel `size + 2` is enough: a loop that stopped early would leave the violation; `fixup_fuel_adequate`: more
+  fuel changes nothing).
   `rebalance_after_insert_wf` is the weaker, assumption-free preservation statement.
 * **well-formedness is an invariant of `add`** without any assumption on comparator, order or balance
   (`add_represents`, `adds_wf`: every state reached from `new` by granted or refused `add`s is `WF`).
@@ -48,18 +51,25 @@ the ids — the inductive tree of `Model/TreeTable.lean`.  `WF st := ∃ t, Repr
   the nodes ≠ `z` remain (`remove_splice`: an iterator's saved `next` stays a tree node); in-order content
   = `OrdMap.erase`.  When a red node leaves (no fix-up) `remove_node` is proved end to end
   (`remove_node_no_fixup`: `Represents`, nodes, content, `size`, freed `z`).
-* **`rebalance_after_delete`, one iteration**: the loop body is the composition of its C-text pieces
+* **`rebalance_after_delete`**: the loop body is the composition of its C-text pieces
   (`delete_iteration_left/right`); each of the four cases on both sides is a single-step lemma on `At`
   (`delete_fixup_case1..4_left/right`, with the `_skip` lemmas for the tests that fail), keeping
-  `x->parent` for a sentinel `x`.
+  `x->parent` for a sentinel `x`; **the loop as a whole** (`rebalance_after_delete_loop`, invariant
+  `Tree.Short`: one black node missing below `x`) and with the final `x->color = BLACK`
+  (`rebalance_after_delete_rb`): well-formed, same nodes, same content, `RB`; it ignores `size`.
+* **`remove_node` end to end** in all structural cases, with or without the fix-up (`remove_node_wf`), hence
+  **`cc_treetable_remove`** (lookup loop + `remove_node`; absent key: unchanged), **`remove_first`**,
+  **`remove_last`** (`remove_wf`, `remove_first_wf`, `remove_last_wf`) and the iterator's remove
+  (`iter_remove_wf`: the saved `next` stays a node of the tree).
+* **`reachable_states_good`**: every state reached from `new` by `add` (granted or refused) / `remove` /
+  `remove_first` / `remove_last`, for any total-order comparator, is `Represents` of a red-black search tree.
 * `wfB_sound`: the Bool check the driver evaluates after every call (flag `inv`) implies `WF`.
 
 **Not proved, compared by the harness only**:
-* the `rebalance_after_delete` *loop* (termination with adequate fuel, `Represents` and `RB` at its end) and
-  hence `remove_node` end to end when a black node leaves; `remove`, `remove_first/last`, `remove_all`,
-  `findLoop`, the iterator's `remove` at the pointer level.  The single-step lemmas are stated for
-  `Represents`; the intermediate states of `remove_node` satisfy `Holds` (`size` is decremented last) — the
-  loop does not read `size`, the glue lemma is not written.
+* `remove_all` / `tree_destroy` (`destroyLoop`), the read-only calls (`get`, `contains_key`, first/last/neighbour
+  queries return values; `findLoop` itself is characterised: `Proofs/PTreeRemoveWF.findLoop_rep`), fuel
+  independence of the delete loop (its theorem holds for every fuel ≥ the depth of `x`, which covers the
+  `size + 2` of the code), the out-values and status codes (the pointer-level model has none).
 * `T'` of `rebalance_after_insert_rb` is not identified with `Tree.ins` of the inductive model (only: same
   nodes, same in-order content, `RB`); C17's height/comparison bounds stay with `Proofs/TreeTableRB*` on the
   inductive model and the runtime check `toTree pt = inductive tree`.
@@ -170,13 +180,13 @@ theorem fixup_case1_left (st : PT) (T : ITree) (g : Path) (gi : Nat) (cg : Colou
       At st' T g (ITree.fixInsLeft (.node gi cg (.node p .red pl pk pv pr) kg vg (.node yi .red yl yk yv yr))) ∧
       toTree st' = Tree.replaceAt T.erase g
         (Tree.fixInsLeft (ITree.node gi cg (.node p .red pl pk pv pr) kg vg (.node yi .red yl yk yv yr)).erase) := by
-  obtain ⟨st', e, hA⟩ := insert_step_L_case1 h d2 hz f
+  obtain ⟨st', e, hA⟩ := insert_step_L_case1 h d2 hz
   have hc : pl.col = .red ∨ pr.col = .red := by
     cases d2 with
     | L => left; simp only [ITree.subtree_L, ITree.subtree_root] at hz; rw [hz]; rfl
     | R => right; simp only [ITree.subtree_R, ITree.subtree_root] at hz; rw [hz]; rfl
   rw [← ITree.fixInsLeft_case1 _ _ _ _ _ _ _ _ _ _ _ _ _ _ hc] at hA
-  exact ⟨st', e, hA, by rw [hA.toTree, ITree.erase_fixInsLeft]⟩
+  exact ⟨st', e f, hA, by rw [hA.toTree, ITree.erase_fixInsLeft]⟩
 
 /-- **case 3** (black uncle, `z` an outer child): recolour, rotate right at the grandparent -/
 theorem fixup_case3_left (st : PT) (T : ITree) (g : Path) (gi : Nat) (cg : Colour) (p z : Nat) (zl : ITree)
@@ -187,9 +197,9 @@ theorem fixup_case3_left (st : PT) (T : ITree) (g : Path) (gi : Nat) (cg : Colou
       At st' T g (ITree.fixInsLeft (.node gi cg (.node p .red (.node z .red zl zk zv zr) pk pv pr) kg vg Y)) ∧
       toTree st' = Tree.replaceAt T.erase g
         (Tree.fixInsLeft (ITree.node gi cg (.node p .red (.node z .red zl zk zv zr) pk pv pr) kg vg Y).erase) := by
-  obtain ⟨st', e, hA⟩ := insert_step_L_case3 h hY f
+  obtain ⟨st', e, hA⟩ := insert_step_L_case3 h hY
   rw [← ITree.fixInsLeft_case3 _ _ _ _ _ _ _ _ _ _ _ _ _ _ hY] at hA
-  exact ⟨st', e, hA, by rw [hA.toTree, ITree.erase_fixInsLeft]⟩
+  exact ⟨st', e f, hA, by rw [hA.toTree, ITree.erase_fixInsLeft]⟩
 
 /-- **case 2 then 3** (black uncle, `z` an inner child, its sibling black): rotate left at the parent, recolour,
 rotate right at the grandparent -/
@@ -201,9 +211,9 @@ theorem fixup_case2_left (st : PT) (T : ITree) (g : Path) (gi : Nat) (cg : Colou
       At st' T g (ITree.fixInsLeft (.node gi cg (.node p .red pl pk pv (.node z .red zl zk zv zr)) kg vg Y)) ∧
       toTree st' = Tree.replaceAt T.erase g
         (Tree.fixInsLeft (ITree.node gi cg (.node p .red pl pk pv (.node z .red zl zk zv zr)) kg vg Y).erase) := by
-  obtain ⟨st', e, hA⟩ := insert_step_L_case2 h hY f
+  obtain ⟨st', e, hA⟩ := insert_step_L_case2 h hY
   rw [← ITree.fixInsLeft_case2 _ _ _ _ _ _ _ _ _ _ _ _ _ _ hY hs] at hA
-  exact ⟨st', e, hA, by rw [hA.toTree, ITree.erase_fixInsLeft]⟩
+  exact ⟨st', e f, hA, by rw [hA.toTree, ITree.erase_fixInsLeft]⟩
 
 /-- the mirror images (parent on the right of the grandparent) -/
 theorem fixup_case1_right (st : PT) (T : ITree) (g : Path) (gi : Nat) (cg : Colour) (p : Nat) (pl : ITree)
@@ -215,13 +225,13 @@ theorem fixup_case1_right (st : PT) (T : ITree) (g : Path) (gi : Nat) (cg : Colo
       At st' T g (ITree.fixInsRight (.node gi cg (.node yi .red yl yk yv yr) kg vg (.node p .red pl pk pv pr))) ∧
       toTree st' = Tree.replaceAt T.erase g
         (Tree.fixInsRight (ITree.node gi cg (.node yi .red yl yk yv yr) kg vg (.node p .red pl pk pv pr)).erase) := by
-  obtain ⟨st', e, hA⟩ := insert_step_R_case1 h d2 hz f
+  obtain ⟨st', e, hA⟩ := insert_step_R_case1 h d2 hz
   have hc : pl.col = .red ∨ pr.col = .red := by
     cases d2 with
     | L => left; simp only [ITree.subtree_L, ITree.subtree_root] at hz; rw [hz]; rfl
     | R => right; simp only [ITree.subtree_R, ITree.subtree_root] at hz; rw [hz]; rfl
   rw [← ITree.fixInsRight_case1 _ _ _ _ _ _ _ _ _ _ _ _ _ _ hc] at hA
-  exact ⟨st', e, hA, by rw [hA.toTree, ITree.erase_fixInsRight]⟩
+  exact ⟨st', e f, hA, by rw [hA.toTree, ITree.erase_fixInsRight]⟩
 theorem fixup_case3_right (st : PT) (T : ITree) (g : Path) (gi : Nat) (cg : Colour) (p z : Nat) (zl : ITree)
     (zk zv : Nat) (zr : ITree) (pk pv : Nat) (pl : ITree) (kg vg : Nat) (Y : ITree)
     (h : At st T g (.node gi cg Y kg vg (.node p .red pl pk pv (.node z .red zl zk zv zr))))
@@ -230,9 +240,9 @@ theorem fixup_case3_right (st : PT) (T : ITree) (g : Path) (gi : Nat) (cg : Colo
       At st' T g (ITree.fixInsRight (.node gi cg Y kg vg (.node p .red pl pk pv (.node z .red zl zk zv zr)))) ∧
       toTree st' = Tree.replaceAt T.erase g
         (Tree.fixInsRight (ITree.node gi cg Y kg vg (.node p .red pl pk pv (.node z .red zl zk zv zr))).erase) := by
-  obtain ⟨st', e, hA⟩ := insert_step_R_case3 h hY f
+  obtain ⟨st', e, hA⟩ := insert_step_R_case3 h hY
   rw [← ITree.fixInsRight_case3 _ _ _ _ _ _ _ _ _ _ _ _ _ _ hY] at hA
-  exact ⟨st', e, hA, by rw [hA.toTree, ITree.erase_fixInsRight]⟩
+  exact ⟨st', e f, hA, by rw [hA.toTree, ITree.erase_fixInsRight]⟩
 theorem fixup_case2_right (st : PT) (T : ITree) (g : Path) (gi : Nat) (cg : Colour) (p z : Nat) (zl : ITree)
     (zk zv : Nat) (zr : ITree) (pk pv : Nat) (pr : ITree) (kg vg : Nat) (Y : ITree)
     (h : At st T g (.node gi cg Y kg vg (.node p .red (.node z .red zl zk zv zr) pk pv pr)))
@@ -241,9 +251,9 @@ theorem fixup_case2_right (st : PT) (T : ITree) (g : Path) (gi : Nat) (cg : Colo
       At st' T g (ITree.fixInsRight (.node gi cg Y kg vg (.node p .red (.node z .red zl zk zv zr) pk pv pr))) ∧
       toTree st' = Tree.replaceAt T.erase g
         (Tree.fixInsRight (ITree.node gi cg Y kg vg (.node p .red (.node z .red zl zk zv zr) pk pv pr)).erase) := by
-  obtain ⟨st', e, hA⟩ := insert_step_R_case2 h hY f
+  obtain ⟨st', e, hA⟩ := insert_step_R_case2 h hY
   rw [← ITree.fixInsRight_case2 _ _ _ _ _ _ _ _ _ _ _ _ _ _ hY hs] at hA
-  exact ⟨st', e, hA, by rw [hA.toTree, ITree.erase_fixInsRight]⟩
+  exact ⟨st', e f, hA, by rw [hA.toTree, ITree.erase_fixInsRight]⟩
 
 /-- the id-annotated fix-ups are the inductive model's -/
 theorem fixups_erase (G : ITree) :
@@ -323,6 +333,13 @@ theorem rebalance_after_insert_rb (st : PT) (T : ITree) (q : Path) (z : Nat) (zl
     ∃ T', Represents (rebalanceAfterInsert st z) T' ∧ T'.erase.toList = T.erase.toList ∧ T'.ids.Perm T.ids ∧
       Tree.RB T'.erase :=
   rebalanceAfterInsert_rb st T q z zl zk zv zr h hz hroot hI (h.fuel_ok q (by rw [hz]; simp))
+
+/-- **the fuel `size + 2` of `rebalance_after_insert` is adequate**: with any additional fuel the loop returns the
+same state — it ended because `z`'s parent is not red (or `z` is the root), not because it ran out of steps -/
+theorem fixup_fuel_adequate (st : PT) (T : ITree) (q : Path) (z : Nat) (zl : ITree) (zk zv : Nat) (zr : ITree)
+    (h : Represents st T) (hz : T.subtree q = .node z .red zl zk zv zr) (hroot : q = [] ∨ T.col = .black) (k : Nat) :
+    rebalInsertLoop (st.size + 2 + k) st z = rebalInsertLoop (st.size + 2) st z :=
+  rebalInsertLoop_fuel (st.size + 2) st T q z zl zk zv zr h hz hroot (h.fuel_ok q (by rw [hz]; simp)) k
 
 /-- the loop invariant is established by the link: the tree with the red leaf satisfies the rules except
 at the leaf's parent; black height and root colour are those of the old tree -/
@@ -653,6 +670,100 @@ theorem delete_fixup_case4_right {st : PT} {T : ITree} {g : Path} {xp : Nat} {cp
       At st' T g (.node w cp (.node r .black rb kr vr ra) kw vw (.node xp .black wl kp vp X)) :=
   PTree.delete_step_R_case4 h hxp
 
+/-! ## `rebalance_after_delete` as a whole, `remove_node` and the removal calls end to end
+
+`Tree.Short t q n` (Proofs/TreeTableShort.lean) is the loop invariant on the inductive tree: the rules hold
+everywhere except that the subtree at `q` — the node `x` of the C loop, possibly the sentinel — is one black node
+short.  `DelPre st T q n x` bundles it with `Represents st T`, `x` = the node at `q`, `x->parent` = the node above
+(a separate hypothesis because for the sentinel it is the scratch value written by `transplant`) and "the root is
+black unless `x` is the root"; `DelPost T r` says: well-formed heap, same nodes, same in-order content, and
+blackening the returned node makes the rules hold. -/
+
+/-- **the loop of `rebalance_after_delete`**, any fuel that covers the depth of `x` -/
+theorem rebalance_after_delete_loop (f : Nat) (st : PT) (T : ITree) (q : Path) (n x : Nat)
+    (pre : DelPre st T q n x) (hf : q.length ≤ f) : DelPost T (rebalDeleteLoop f st x) :=
+  rebalDeleteLoop_post f st T q n x pre hf
+
+/-- **`rebalance_after_delete`** (loop and final `x->color = BLACK`): well-formed, same nodes, same in-order content,
+red-black rules with a black root -/
+theorem rebalance_after_delete_rb (st : PT) (T : ITree) (q : Path) (n x : Nat) (pre : DelPre st T q n x)
+    (F : Nat) (hF : q.length ≤ F) :
+    ∃ T', Represents { (rebalDeleteLoop F st x).1 with
+              heap := setColor (rebalDeleteLoop F st x).1.heap (rebalDeleteLoop F st x).2 .black } T' ∧
+      T'.erase.toList = T.erase.toList ∧ T'.ids.Perm T.ids ∧ Tree.RB T'.erase :=
+  rebalanceAfterDelete_post pre F hF
+
+/-- the loop neither reads nor writes `size` (`remove_node` decrements it afterwards) -/
+theorem delete_loop_ignores_size (f : Nat) (st : PT) (x n : Nat) :
+    rebalDeleteLoop f { st with size := n } x =
+      ({ (rebalDeleteLoop f st x).1 with size := n }, (rebalDeleteLoop f st x).2) :=
+  rebalDeleteLoop_size f st x n
+
+/-- the splice establishes the loop's precondition when a black node left, and leaves a red-black tree when a red
+one left (all four structural cases; `qx` is the position of `x`) -/
+theorem splice_establishes_invariant (cmp : Nat → Nat → Int) (hto : TotalOrder cmp) (st : PT) (T : ITree)
+    (h : Represents st T) (hb : Tree.BST cmp T.erase) (hrb : Tree.RB T.erase) (q : Path) {z cz zl zk zv zr}
+    (hs : T.subtree q = .node z cz zl zk zv zr) :
+    ∃ T' qx, SpliceOut st T z zk cmp T' qx :=
+  removeSplice_out cmp hto h hb hrb q hs
+
+/-- **`remove_node` end to end**, every structural case, with or without the fix-up -/
+theorem remove_node_wf (cmp : Nat → Nat → Int) (hto : TotalOrder cmp) (st : PT) (T : ITree)
+    (h : Represents st T) (hb : Tree.BST cmp T.erase) (hrb : Tree.RB T.erase) (q : Path) {z cz zl zk zv zr}
+    (hs : T.subtree q = .node z cz zl zk zv zr) :
+    ∃ T', Represents (removeNode st z) T' ∧ (z :: T'.ids).Perm T.ids ∧
+      (toTree (removeNode st z)).toList = OrdMap.erase (toTree st).toList zk ∧ Tree.RB (toTree (removeNode st z)) := by
+  obtain ⟨T', a, b, c, d⟩ := removeNode_wf cmp hto h hb hrb q hs
+  exact ⟨T', a, b, by rw [a.toTree, h.toTree]; exact c, by rw [a.toTree]; exact d⟩
+
+/-- **`cc_treetable_remove` end to end**: the lookup loop finds the node with the key (absent: the state is
+returned unchanged), `remove_node` does the rest -/
+theorem remove_wf (cmp : Nat → Nat → Int) (hto : TotalOrder cmp) (st : PT) (T : ITree)
+    (h : Represents st T) (hb : Tree.BST cmp T.erase) (hrb : Tree.RB T.erase) (k : Nat) :
+    (T.subtree (Tree.leafPath cmp k T.erase) = .nil → remove cmp st k = st) ∧
+    (∀ {z cz zl zk zv zr}, T.subtree (Tree.leafPath cmp k T.erase) = .node z cz zl zk zv zr →
+      zk = k ∧ ∃ T', Represents (remove cmp st k) T' ∧ (z :: T'.ids).Perm T.ids ∧
+        T'.erase.toList = OrdMap.erase T.erase.toList k ∧ Tree.RB T'.erase ∧ Tree.BST cmp T'.erase) :=
+  PTree.remove_wf cmp hto h hb hrb k
+
+/-- **`cc_treetable_remove_first` / `remove_last`** on a non-empty table -/
+theorem remove_first_wf (cmp : Nat → Nat → Int) (hto : TotalOrder cmp) (st : PT) (T : ITree)
+    (h : Represents st T) (hb : Tree.BST cmp T.erase) (hrb : Tree.RB T.erase) (hne : T ≠ .nil) :
+    ∃ z cz zk zv zr, T.subtree (Tree.treeMinPath T.erase) = .node z cz .nil zk zv zr ∧
+      ∃ T', Represents (removeFirst st) T' ∧ (z :: T'.ids).Perm T.ids ∧
+        T'.erase.toList = OrdMap.erase T.erase.toList zk ∧ Tree.RB T'.erase :=
+  removeFirst_wf cmp hto h hb hrb hne
+theorem remove_last_wf (cmp : Nat → Nat → Int) (hto : TotalOrder cmp) (st : PT) (T : ITree)
+    (h : Represents st T) (hb : Tree.BST cmp T.erase) (hrb : Tree.RB T.erase) (hne : T ≠ .nil) :
+    ∃ z cz zl zk zv, T.subtree (Tree.treeMaxPath T.erase) = .node z cz zl zk zv .nil ∧
+      ∃ T', Represents (removeLast st) T' ∧ (z :: T'.ids).Perm T.ids ∧
+        T'.erase.toList = OrdMap.erase T.erase.toList zk ∧ Tree.RB T'.erase :=
+  removeLast_wf cmp hto h hb hrb hne
+
+/-- **`cc_treetable_iter_remove`**: the node handed out last is removed by `remove_node`; the saved `next` node — any
+other node of the tree — is still a node of the resulting tree (the successor *node* is re-linked, not copied) -/
+theorem iter_remove_wf (cmp : Nat → Nat → Int) (hto : TotalOrder cmp) (st : PT) (T : ITree)
+    (h : Represents st T) (hb : Tree.BST cmp T.erase) (hrb : Tree.RB T.erase) (it : PIter) (q : Path)
+    {z cz zl zk zv zr} (hs : T.subtree q = .node z cz zl zk zv zr) (hcur : it.cur = some z) :
+    ∃ T', Represents (iterRemove st it).1 T' ∧ (z :: T'.ids).Perm T.ids ∧
+      T'.erase.toList = OrdMap.erase T.erase.toList zk ∧ Tree.RB T'.erase ∧
+      (it.next ∈ T.ids → it.next ≠ z → (iterRemove st it).2.next ∈ T'.ids) := by
+  have hz0 : z ≠ 0 := (h.get_at q hs).2
+  obtain ⟨T', a, b, c, d⟩ := removeNode_wf cmp hto h hb hrb q hs
+  unfold iterRemove
+  simp only [hcur, S, hz0, if_false]
+  refine ⟨T', a, b, c, d, fun hm hne => ?_⟩
+  have := b.symm.subset hm
+  simp only [List.mem_cons] at this
+  exact this.resolve_left hne
+
+/-- **every reachable state is good**: from the constructor, any sequence of `add` (granted or refused), `remove`,
+`remove_first`, `remove_last` — for any total-order comparator — leaves a heap that represents a red-black search
+tree (`Good`: `Represents`, `BST`, `RB`) -/
+theorem reachable_states_good (cmp : Nat → Nat → Int) (hto : TotalOrder cmp) (ops : List POp) :
+    Good cmp (ops.foldl (POp.run cmp) PTree.new) :=
+  Good.run cmp hto ops
+
 /-! ## Non-vacuity of the hypotheses -/
 
 /-- the numeric comparator -/
@@ -755,5 +866,20 @@ example :
   ⟨At.of_represents ex5_represents [] (by simp [T5]), by simp [ex5, ex5heap, Heap.get_set],
    by simp [ex5, ex5heap, Heap.get_set], At.of_represents ex3_represents [] (by simp [T3]),
    by simp [ex3, ex3heap, Heap.get_set]⟩
+
+/-- the hypothesis bundle of `remove_node_wf` / `splice_establishes_invariant` is satisfiable (the five-node heap,
+removing the black root 4 whose successor 3 is not its child; removing the black node 2 hands a deficit to the
+fix-up), and the theorems chain along a history with removals that run the fix-up loop -/
+example : (∃ T', Represents (removeNode ex5 4) T' ∧ (4 :: T'.ids).Perm T5.ids) ∧
+    (∃ T' qx, SpliceOut ex5 T5 2 30 numCmp T' qx) ∧
+    Good numCmp ([POp.add 1 0 true, .add 2 0 true, .add 3 0 true, .add 4 0 true, .add 5 0 true, .add 6 0 true,
+      .add 7 0 false, .add 7 0 true, .remove 1, .remove 4, .removeFirst, .removeLast, .remove 9].foldl
+      (POp.run numCmp) PTree.new) := by
+  refine ⟨?_, ?_, reachable_states_good numCmp numCmp_total _⟩
+  · obtain ⟨T', a, b, _⟩ := remove_node_wf numCmp numCmp_total ex5 T5 ex5_represents (by decide) (by decide) []
+      (z := 4) rfl
+    exact ⟨T', a, b⟩
+  · exact splice_establishes_invariant numCmp numCmp_total ex5 T5 ex5_represents (by decide) (by decide) [.L]
+      (z := 2) rfl
 
 end CC.Properties.C03PTree
